@@ -245,6 +245,8 @@ def compileExpr (env : CEnv) : CExpr → Except String CE
   | .call _ _ _ _ => .error "hybrid: use CompileH"
   | .stmtexpr _ _ _ => .error "hybrid: use CompileH"
   | .seqexpr _ _ _ _ _ => .error "hybrid: use CompileH"
+  | .callx _ _ _ _ _ => .error "hybrid: use CompileH"
+  | .xmacro _ _ _ => .error "pass-through macro: use CompileH"
 def compileArgs (env : CEnv) : List CExpr → List CT → Except String (List ILPure)
   | [], _ => .ok []
   | _ :: _, [] => .error "macro arity"
